@@ -59,6 +59,11 @@ CATALOGUE = [
     '(declare-const v7 Float16)\n(assert (distinct (fp (_ bv1 1) (_ bv1 5) (_ bv0 10)) v7))\n',
     '(declare-const v4 (_ FloatingPoint 5 11))\n(assert (distinct (fp (_ bv1 1) #b00000 (_ bv1 10)) v4))\n',
     '(declare-const v (_ FloatingPoint 3 5))\n(assert (fp.lt v (fp #b0 #b111 #x0)))\n',
+    # the default floating-point constants themselves (not leaves): whatever
+    # replaces one must not be replaced by it again
+    '(assert (fp.isNaN (fp (_ bv0 1) (_ bv0 8) (_ bv0 23))))\n',
+    '(declare-const v Float16)\n(assert (fp.lt v (fp (_ bv0 1) (_ bv0 5) (_ bv0 10))))\n(assert (fp.isNaN (fp #b0 #b10001 #b0100000000)))\n',
+    '(declare-const r Real)\n(assert (> r (/ 1 3)))\n(assert (< (/ 0.0 1.0) r))\n',
     # one symbol declared twice, used in quoted form
     '(declare-const x Int)\n(declare-const x Int)\n(assert (= |x| |x|))\n',
     '(declare-const x Int)\n(declare-const |y z| Int)\n(assert (= |x| |y z|))\n',
@@ -441,8 +446,10 @@ def growth_cycles(ex, ns, res, text, depth=3, cap=60, breadth=10):
             for _, m, i, t in keyed[:breadth]:
                 dfs(t, names + [(m, i)], states + [t], d + 1)
 
+    # (a step that adds a command counts as growth even if the input gets
+    # smaller: a declaration for a fresh variable that replaces a large term)
     first = [(m, i, t) for m, i, t in ex.successors(exprs)
-             if ns.nodes.count_nodes(t) > size0]
+             if ns.nodes.count_nodes(t) > size0 or len(t) > len(exprs)]
     res.count('states_expanded')
     seen_first = set()
     for m, i, t in first:
